@@ -31,8 +31,9 @@ Print Assumptions C01_accept_or_convert_error.
 
 Theorem C01_accepts_none : forall v x, tc TNone v = Ok x <-> v = VNone /\ x = VNone.
 Proof. exact accepts_none. Qed.
+(* a literal is matched by an equal value of the literal's own kind only (1.0 and True are not Literal[1]) *)
 Theorem C01_accepts_literal : forall vals v x,
-  tc (TLiteral vals) v = Ok x <-> x = v /\ exists l, In l vals /\ py_eqb v l = true.
+  tc (TLiteral vals) v = Ok x <-> x = v /\ exists l, In l vals /\ kind_of v = kind_of l /\ py_eqb v l = true.
 Proof. exact accepts_literal. Qed.
 Theorem C01_accepts_scalar : forall s v x,
   tc (TScalar s) v = Ok x <-> strict_ok s (kind_of v) = true /\ scalar_ctor s v = ROk x.
